@@ -213,6 +213,19 @@ def cases(seed=0, thorough=False):
     a, b = nb(), nb()
     add("r = ds.Select(lambda e: (lambda a, b: a + b)({A}, 1)).Select(lambda f: {B})".format(A=body(a, "e"), B=body(b, "f")),
         ["lambda e: (lambda a, b: a + b)({A}, 1)".format(A=body(a, "e")), "lambda f: {B}".format(B=body(b, "f"))], False, "K4 nested lambda with two parameters")
+    # ---- K1 / K2 again with the body of the passed lambda on a continuation line that starts in column 0 (legal inside brackets at any indentation;
+    #      lines marked @@0 are not indented by the enclosing context)
+    # every instruction of the passed lambda starts in column 0 when its body is a bare attribute chain there
+    a, b = nb(), nb()
+    add("flag_%d = False\nr = ds.Select((lambda e: e.i_k%d) if flag_%d else (lambda e:\n@@0e.i_k%d))" % (a, a, a, b),
+        ["lambda e: e.i_k%d" % b], False, "K5 conditional expression, chosen lambda's body starts in column 0")
+    a, b = nb(), nb()
+    add("r = ds.Select(lambda e: e.i_k%d).Select(f=lambda e:\n@@0e.i_k%d)" % (a, b),
+        ["lambda e: e.i_k%d" % a, "lambda e: e.i_k%d" % b], False, "K5 lambda passed by keyword after a same-signature call, body starts in column 0")
+    a, b, c = nb(), nb(), nb()
+    add("r = ds.Select(lambda e: e.so_jets.Select(\n@@0lambda j: j.i_k%d)).Select(lambda e:\n@@0e.i_k%d)" % (a, b),
+        ["lambda e: e.so_jets.Select(lambda j: j.i_k%d)" % a, "lambda e: e.i_k%d" % b], False,
+        "K5 nested lambda starts the continuation line in column 0, same-signature call after it")
     # ---- the same lambda expression passed several times as different closures: every call records the lambda it was handed
     a = nb()
     add("""
@@ -312,8 +325,17 @@ def _arg(op, b):
     return b
 
 
+def _pin(text):
+    "lines marked @@0 (after the context's indentation was added) go back to column 0"
+    return "\n".join(ln.lstrip(" ")[3:] if ln.lstrip(" ").startswith("@@0") else ln for ln in text.split("\n"))
+
+
 def render(cases_):
     """-> module source; each case becomes case_<k>(ds)"""
+    return _pin(_render(cases_))
+
+
+def _render(cases_):
     parts = ["import functools\n\n\ndef _deco(f):\n    return f\n\n"]
     for k, c in enumerate(cases_):
         code = c["code"]
